@@ -82,11 +82,16 @@ for _n in ("__eq__", "__ne__", "__lt__", "__le__", "__gt__", "__ge__", "__add__"
 
 
 class CanaryDesc:
+    """the canary record's descriptor: name and field table as plain attributes, getfields - which the selector exposes as
+    `fields` - is the REAL RecordDescriptor.getfields of a descriptor without fields, so that whatever that exposed function
+    does with an argument is done to the canaries too"""
     name = "canary/record"
-    fields = {}
 
-    def getfields(self, typename):
-        return []
+    def __init__(self):
+        from flow.record import RecordDescriptor
+        real = RecordDescriptor("canary/record", [])
+        self.fields = real.fields
+        self.getfields = real.getfields
 
 
 class CanaryRecord:
@@ -271,6 +276,23 @@ IMPL_ONLY = [
 ]
 
 
+def exposed_on_canaries(constructors=True):
+    """Every callable the selector exposes (namespace functions, str/repr/any/all/fields, every whitelisted field-type
+    constructor), applied to canaries in every argument position: what an exposed function does with its arguments is its own
+    business, EXCEPT invoking their non-dunder methods, writing to them or reading their double-underscore attributes
+    through getattr - the oracle of explore() (implementation only; outside the symbolic model).  The field-type constructors
+    hand their argument to library code that duck-types it (urlparse calls .decode, ipaddress calls .split ...): permitted
+    by the property ("call ... the whitelisted field-type constructors"), so for them only writes and dunder reads count."""
+    import flow.record.selector as sel
+    from flow.record.whitelist import WHITELIST
+    names = ["str", "repr", "fields", "any", "all"] + sorted(f.__name__ for f in sel.FUNCTION_WHITELIST)
+    out = []
+    for f in names + (sorted(WHITELIST) if constructors else []):
+        out += ["%s(r.z)" % f, "%s(r.z, r.y)" % f, "%s(r, r.z)" % f, "%s(r, ['a'], r.z)" % f, "%s(r.z, ['a'], ['x'])" % f,
+                "%s(r, r.z, ['x'])" % f, "%s([r.z])" % f, "%s(r.z.w)" % f]
+    return out
+
+
 def expressions(ctx):
     out = []
     for (c, _), e in itertools.product(CALL_TARGETS, ENCLOSURES):
@@ -399,7 +421,10 @@ def explore(ctx, report=True):
     kf = {f["id"]: f for f in core.known_for("C09")}
     terms, metas = [], []
     field_lists = {e: fl for e, fl in HELPER_DUNDER}
-    for expr in expressions(ctx) + [e for e, _ in HELPER_DUNDER] + IMPL_ONLY:
+    ctor_exprs = set(exposed_on_canaries()) - set(exposed_on_canaries(constructors=False))
+    modelled = set(expressions(ctx)) | {e for e, _ in HELPER_DUNDER}
+    impl_only = set(IMPL_ONLY) | set(exposed_on_canaries())
+    for expr in expressions(ctx) + [e for e, _ in HELPER_DUNDER] + IMPL_ONLY + exposed_on_canaries():
         out, log = run_impl(expr)
         if out is None:
             continue
@@ -409,6 +434,8 @@ def explore(ctx, report=True):
         calls = [e for e in log if e[0] == "call"]
         sets = [e for e in log if e[0] == "setattr"]
         dunder = [e for e in log if e[0] == "getattr" and e[2].startswith("__")]
+        if expr in ctor_exprs:
+            calls = []
         if calls or sets or dunder:
             if report:
                 ctx.violation("evaluating %r invoked / modified / dunder-read a canary object: %r" % (expr, (calls + sets + dunder)[:3]),
@@ -424,7 +451,7 @@ def explore(ctx, report=True):
             return None, None, True
         reads = [(e[1], e[2]) for e in log if e[0] == "getattr"]
         code = {"Ok": 0, "InvalidOperation": 1, "TypeErr": 2, "KeyErr": 3, "AttrErr": 4}.get(out, 5)
-        if expr in IMPL_ONLY:
+        if expr in impl_only and expr not in modelled:
             continue
         head = "case_ok" if expr not in field_lists else "case_ok_f %s" % clist([cstr(x) for x in field_lists[expr]])
         terms.append("(%s %s %d %s)" % (head, to_node(tree), code, clist(["(%s, %s)" % (cstr(p), cstr(n)) for p, n in reads])))
